@@ -559,6 +559,247 @@ fn drive_glue(out: &mut impl Write, r: &mut Rng, budget: usize, props: &Value, b
     }
 }
 
+
+// ------------------------------------------------------------------ laxcat: lax categorical operations, conversions, forgetting on a pool
+
+fn rand_lax(r: &mut Rng, maxn: usize, maxe: usize, maxq: usize) -> Value {
+    let n = r.below(maxn + 1);
+    let nodes: Vec<i64> = (0..n).map(|_| r.below(2) as i64).collect();
+    let ne = if n == 0 { 0 } else { r.below(maxe + 1) };
+    let mut edges = vec![];
+    let mut adj = vec![];
+    for _ in 0..ne {
+        edges.push(r.below(3));
+        adj.push(json!({"s": rand_seq(r, n, 2), "t": rand_seq(r, n, 2)}));
+    }
+    let nq = if n == 0 { 0 } else { r.below(maxq + 1) };
+    // mostly label-consistent pairs (so that strictification is defined), sometimes arbitrary ones
+    let mut ql = vec![];
+    let mut qr = vec![];
+    for _ in 0..nq {
+        let v = r.below(n);
+        let same: Vec<usize> = (0..n).filter(|i| nodes[*i] == nodes[v]).collect();
+        let w = if r.coin(9, 10) { *r.pick(&same) } else { r.below(n) };
+        ql.push(v);
+        qr.push(w);
+    }
+    json!({"nodes": nodes, "edges": edges, "adj": adj, "ql": ql, "qr": qr, "sources": rand_seq(r, n, 3), "targets": rand_seq(r, n, 3)})
+}
+
+fn lax_size(d: &Value) -> (usize, usize, usize) {
+    (arr(&d["nodes"]).len(), arr(&d["edges"]).len(), arr(&d["ql"]).len())
+}
+
+fn drive_laxcat(out: &mut impl Write, r: &mut Rng, budget: usize, props: &Value) {
+    let mut pool: Vec<Value> = (0..8).map(|_| rand_lax(r, 3, 2, 2)).collect();
+    let mut produced = 0;
+    while produced < budget {
+        let f = r.pick(&pool).clone();
+        let g = r.pick(&pool).clone();
+        let choice = r.below(100);
+        let (op, args): (&str, Value) = if choice < 14 {
+            ("lax.tensor", json!({"f": f, "g": g}))
+        } else if choice < 28 {
+            ("lax.lax_compose", json!({"f": f, "g": g}))
+        } else if choice < 40 {
+            ("lax.compose", json!({"f": f, "g": g}))
+        } else if choice < 48 {
+            ("lax.tensor_assign", json!({"pre": f, "g": g}))
+        } else if choice < 54 {
+            ("lax.append", json!({"pre": f, "g": g}))
+        } else if choice < 60 {
+            ("lax.dagger", json!({"f": f}))
+        } else if choice < 68 {
+            ("lax.quotient", json!({"pre": f}))
+        } else if choice < 76 {
+            ("lax.roundtrip_lax", json!({"pre": f}))
+        } else if choice < 82 {
+            ("lax.to_strict", json!({"pre": f}))
+        } else if choice < 88 {
+            ("var.forget", json!({"f": f}))
+        } else if choice < 92 {
+            ("var.forget_monogamous", json!({"f": f}))
+        } else if choice < 96 {
+            ("laxf.identity", json!({"f": f}))
+        } else {
+            let i = r.below(pool.len());
+            pool[i] = rand_lax(r, 4, 3, 2);
+            continue;
+        };
+        if !wanted(op) {
+            continue;
+        }
+        // conversions and functors need label-consistent unifications: skip the others for those calls
+        let needs_consistent = matches!(op, "lax.roundtrip_lax" | "lax.to_strict" | "var.forget" | "var.forget_monogamous" | "laxf.identity");
+        if needs_consistent {
+            let mut probe = lax_in(&f);
+            if probe.quotient().is_err() {
+                continue;
+            }
+        }
+        let call_args = args.clone();
+        let obs = guarded(|| lax_ops::run(op, &call_args));
+        // feed results back (bounded size)
+        let fed = if obs["tag"] == "some" || (obs["tag"] == "val" && obs["val"].get("nodes").is_some()) { Some(obs["val"].clone()) } else { obs.get("post").cloned() };
+        if let Some(v) = fed {
+            if v.get("nodes").is_some() {
+                let (n, e, q) = lax_size(&v);
+                if n <= 7 && e <= 5 && q <= 5 {
+                    if pool.len() < 20 {
+                        pool.push(v);
+                    } else {
+                        let i = r.below(pool.len());
+                        pool[i] = v;
+                    }
+                }
+            }
+        }
+        emit(out, json!({"op": op, "props": props, "args": args, "backend": "vec", "profile": profile(), "obs": obs}));
+        produced += 1;
+    }
+}
+
+// ------------------------------------------------------------------ progs: functor / optic tables, Var scripts, morphisms as random programs
+
+fn singleton_img(l: i64, a: &[i64], b: &[i64]) -> Value {
+    let mut w = a.to_vec();
+    w.extend(b.iter());
+    let s: Vec<usize> = (0..a.len()).collect();
+    let t: Vec<usize> = (a.len()..a.len() + b.len()).collect();
+    pack(&w, &[(l, s.clone(), t.clone())], &s, &t)
+}
+
+/// a random optic table over objects {0, 1} covering every operation type of `f`
+fn optic_for(r: &mut Rng, f: &Value) -> Value {
+    let lists: [Vec<i64>; 4] = [vec![], vec![0], vec![1, 0], vec![0, 0]];
+    let fobj: Vec<Vec<i64>> = (0..3).map(|_| r.pick(&lists).clone()).collect();
+    let robj: Vec<Vec<i64>> = (0..3).map(|_| r.pick(&lists).clone()).collect();
+    let w = vec_o(&f["h"]["w"]);
+    let x = vec_o(&f["h"]["x"]);
+    let seg = |ic: &Value| -> Vec<Vec<usize>> {
+        let sizes = vec_us(&ic["sources"]["table"]);
+        let vals = vec_us(&ic["values"]["table"]);
+        let mut out = vec![];
+        let mut p = 0;
+        for k in sizes {
+            out.push(vals[p..p + k].to_vec());
+            p += k;
+        }
+        out
+    };
+    let (ss, ts) = (seg(&f["h"]["s"]), seg(&f["h"]["t"]));
+    let mut labels: Vec<i64> = x.clone();
+    labels.sort();
+    labels.dedup();
+    let residual: Vec<(i64, Vec<i64>)> = labels.iter().map(|l| (*l, r.pick(&lists).clone())).collect();
+    let res_of = |l: i64| residual.iter().find(|p| p.0 == l).unwrap().1.clone();
+    let mut fops = vec![];
+    let mut rops = vec![];
+    let mut seen: Vec<(i64, Vec<i64>, Vec<i64>)> = vec![];
+    for i in 0..x.len() {
+        let a: Vec<i64> = ss[i].iter().map(|v| w[*v]).collect();
+        let b: Vec<i64> = ts[i].iter().map(|v| w[*v]).collect();
+        if seen.contains(&(x[i], a.clone(), b.clone())) {
+            continue;
+        }
+        seen.push((x[i], a.clone(), b.clone()));
+        let fl = |ty: &Vec<i64>, objs: &Vec<Vec<i64>>| -> Vec<i64> { ty.iter().flat_map(|o| objs[*o as usize].clone()).collect() };
+        let (fa, fb, ra, rb) = (fl(&a, &fobj), fl(&b, &fobj), fl(&a, &robj), fl(&b, &robj));
+        let m = res_of(x[i]);
+        let mut fbm = fb.clone();
+        fbm.extend(m.iter());
+        let mut mrb = m.clone();
+        mrb.extend(rb.iter());
+        fops.push(json!({"l": x[i], "a": a, "b": b, "img": singleton_img(x[i] + 20, &fa, &fbm)}));
+        rops.push(json!({"l": x[i], "a": a, "b": b, "img": singleton_img(x[i] + 40, &mrb, &ra)}));
+    }
+    json!({"fwd": {"obj": fobj, "ops": fops}, "rev": {"obj": robj, "ops": rops},
+           "residual": residual.iter().map(|(l, m)| json!({"l": l, "m": m})).collect::<Vec<_>>()})
+}
+
+fn rand_script(r: &mut Rng) -> Value {
+    let steps = r.range(2, 6);
+    let mut nv = 0usize;
+    let mut script = vec![];
+    for _ in 0..steps {
+        let c = r.below(10);
+        if nv == 0 || c < 2 {
+            script.push(json!({"k": "var", "label": r.below(2)}));
+            nv += 1;
+        } else if c < 6 {
+            let k = *r.pick(&["add", "mul", "xor", "sub", "and"]);
+            script.push(json!({"k": k, "l": r.below(nv), "r": r.below(nv)}));
+            nv += 1;
+        } else if c < 7 {
+            script.push(json!({"k": *r.pick(&["neg", "not"]), "l": r.below(nv)}));
+            nv += 1;
+        } else if c < 9 {
+            let nres = r.range(0, 3);
+            let vars: Vec<usize> = (0..r.range(0, 3)).map(|_| r.below(nv)).collect();
+            let results: Vec<usize> = (0..nres).map(|_| r.below(2)).collect();
+            script.push(json!({"k": "op", "vars": vars, "results": results, "x": 30 + r.below(3)}));
+            nv += nres;
+        } else {
+            script.push(json!({"k": "fnop", "vars": [r.below(nv)], "result": r.below(2), "x": 10}));
+            nv += 1;
+        }
+    }
+    let srcs = rand_seq(r, nv, 2);
+    let tgts = rand_seq(r, nv, 2);
+    json!({"script": script, "srcs": srcs, "tgts": tgts})
+}
+
+/// a random pair of hypergraphs with a candidate morphism: a genuine inclusion, sometimes perturbed
+fn rand_morphism(r: &mut Rng) -> Value {
+    let mut m = rand_inclusion(r);
+    if r.coin(1, 2) {
+        // perturb one entry of one of the two maps (keeps the tables in range)
+        let which = if r.coin(1, 2) { "w" } else { "x" };
+        let tgt = us(&m[which]["target"]);
+        let mut tbl = vec_us(&m[which]["table"]);
+        if !tbl.is_empty() && tgt > 0 {
+            let i = r.below(tbl.len());
+            tbl[i] = r.below(tgt);
+            m[which]["table"] = json!(tbl);
+        }
+    }
+    m
+}
+
+fn drive_progs(out: &mut impl Write, r: &mut Rng, budget: usize, props: &Value, backend: &str) {
+    let mut produced = 0;
+    while produced < budget {
+        let choice = r.below(100);
+        let (op, args): (&str, Value) = if choice < 30 {
+            let f = rand_diagram(r, 3, 3, None);
+            let t = optic_for(r, &f);
+            (*r.pick(&["optic.map_arrow", "optic.map_adapted", "laxf.optic_map_adapted"]), json!({"optic": t, "f": f}))
+        } else if choice < 55 {
+            ("var.script", rand_script(r))
+        } else if choice < 80 {
+            let m = rand_morphism(r);
+            (*r.pick(&["arrow.new", "arrow.new", "arrow.is_monomorphism"]), m)
+        } else {
+            let f = rand_diagram(r, 3, 4, None);
+            let ft = functor_for(r, &f);
+            (*r.pick(&["functor.map_arrow", "functor.laws"]), json!({"F": ft, "f": f, "g": f}))
+        };
+        if !wanted(op) {
+            continue;
+        }
+        // lax optic entry point takes a lax term
+        let args = if op == "laxf.optic_map_adapted" {
+            let lf = lax_out(&open_hypergraphs::lax::OpenHypergraph::from_strict(crate::strict_ops::vec::oh(&args["f"])));
+            json!({"optic": args["optic"], "f": lf})
+        } else {
+            args
+        };
+        let obs = dispatch(op, backend, &args);
+        emit(out, json!({"op": op, "props": props, "args": args, "backend": backend, "profile": profile(), "obs": obs}));
+        produced += 1;
+    }
+}
+
 // ------------------------------------------------------------------ arrays, finite functions
 
 fn rand_arr(r: &mut Rng, maxlen: usize, maxv: usize) -> Vec<usize> {
@@ -718,6 +959,8 @@ pub fn main(args: &[String]) {
         "arrays" => drive_arrays(&mut out, &mut r, budget, &props, &backend),
         "graphs" => drive_graphs(&mut out, &mut r, budget, &props, &backend),
         "glue" => drive_glue(&mut out, &mut r, budget, &props, &backend),
+        "laxcat" => drive_laxcat(&mut out, &mut r, budget, &props),
+        "progs" => drive_progs(&mut out, &mut r, budget, &props, &backend),
         _ => {
             eprintln!("drive: unknown machine {}", machine);
             std::process::exit(2);
